@@ -7,6 +7,7 @@ Model side: MpfVerif.Model.Credits (integer credit units) through the compiled d
 Oracle (independent of the model, exact rational arithmetic): bounds, start only with a full price, exact deduction,
 audits = coins accepted, balance = reference pricing (cumulative greedy tier bonus) of the money inserted.
 """
+import gc
 from fractions import Fraction
 from unittest.mock import MagicMock
 
@@ -374,10 +375,10 @@ class Oracle:
             self.balance -= self.upg * added
             if pl0 == 0:
                 self.run_units = 0      # pricing tiers restart with the game
+        self.bounds(op, u1)
         if u1 != self.balance:
             self.fail("balance-mismatch", op=op, units=u1, reference=self.balance, units_before=u0)
             self.balance = u1
-        self.bounds(op, u1)
         a = run.audits()
         if (a[0], Fraction(a[1]).limit_denominator(10 ** 6), a[2], a[3], a[4]) != \
                 (self.coins, self.money, self.awards, self.service, self.paid):
@@ -391,7 +392,7 @@ class Oracle:
         if self.cap and u > self.cap:
             self.fail("bounds:over-max", op=op, units=u, max_units=self.cap)
 
-    def after_tick(self, op, run, crashed, ball_before, ball_after, u_mid, all_fired, fp):
+    def after_tick(self, op, run, crashed, ball_before, ball_after, u_mid, frac_fired, all_fired, fp):
         if crashed:
             self.fail(crashed + ":tick", op=op)
             return
@@ -400,13 +401,16 @@ class Oracle:
             self.fail("balance-not-int", op=op, units=repr(u))
             return
         self.bounds(op, u)
-        # time passing can only expire credits: all of them or the fraction of a credit
-        if u != u_mid and u != 0 and u != u_mid - u_mid % self.upg:
-            self.fail("balance-mismatch", op=op, units=u, units_before_time_passed=u_mid)
+        # time passing can only expire credits: the fraction of a credit, or all of them, exactly when their time is up
+        expected = u_mid
+        if frac_fired:
+            expected -= expected % self.upg
         if all_fired:
-            if u != 0:
-                self.fail("balance-mismatch", op=op, units=u, expected=0, why="credit expiration time passed")
+            expected = 0
             self.run_units = 0
+        if u != expected:
+            self.fail("balance-mismatch", op=op, units=u, reference=expected, units_before_time_passed=u_mid,
+                      fractional_expired=frac_fired, all_expired=all_fired)
         self.balance = u
         # ball 2 of player 1 starts: the tier count restarts (observed through the game state)
         if ball_after == (1, 2) and ball_before != (1, 2) and not fp:
@@ -454,10 +458,12 @@ def execute(cfg, ops, model):
             u_mid = run.units() or 0
             ball1 = ball_of(run)
             d = run.c.delay.delays.get("clear_all_credits")
+            df = run.c.delay.delays.get("clear_fractional_credits")
             fp_mid = run.free_play()
             cr = run.tick(op)
             all_fired = d is not None and d[0].when() <= run.vm.now()
-            orc.after_tick(op, run, cr, ball1, ball_of(run), u_mid, all_fired, fp_mid)
+            frac_fired = df is not None and df[0].when() <= run.vm.now()
+            orc.after_tick(op, run, cr, ball1, ball_of(run), u_mid, frac_fired, all_fired, fp_mid)
             if cr:
                 break
             if (run.units() or 0) < u_mid:
@@ -523,6 +529,8 @@ def run(ctx):
             r = ctx.rng("case", i)
             cfg = gen_cfg(r)
             run_case(ctx, cfg, gen_ops(r, cfg), model)
+            if i % 25 == 24:
+                gc.collect()        # stopped machines are cyclic garbage
             if len(ctx.failures) >= 3 or ctx.hist.get("further_failing_cases", 0) >= 20:
                 break       # the verdict is settled; do not burn the budget on more witnesses
     finally:
